@@ -189,7 +189,7 @@ impl Ctx {
         reed_solomon_simd::verif::set_cpu_mask(u32::MAX);
         match res {
             Ok(v) => Ok(v),
-            Err(_) => Err(take_panic_message()),
+            Err(_) => Err(harness_panic_guard(take_panic_message())),
         }
     }
 
@@ -199,7 +199,7 @@ impl Ctx {
         reed_solomon_simd::verif::set_cpu_mask(u32::MAX);
         match catch_unwind(AssertUnwindSafe(f)) {
             Ok(v) => Ok(v),
-            Err(_) => Err(take_panic_message()),
+            Err(_) => Err(harness_panic_guard(take_panic_message())),
         }
     }
 }
@@ -241,6 +241,17 @@ pub fn install_panic_hook() {
             *g = format!("{msg} @ {loc}");
         }
     }));
+}
+
+/// A panic raised by harness code (even inside a guarded call into the crate) is a bug of the harness,
+/// never a verdict about the code under test: stop with exit 2.
+pub fn harness_panic_guard(msg: String) -> String {
+    let loc = msg.rsplit_once(" @ ").map_or("", |x| x.1);
+    if loc.starts_with("rsim/") || loc.starts_with("simcore/") || loc.contains("/verif/harness/") {
+        eprintln!("harness error: panic in harness code: {msg}");
+        std::process::exit(2);
+    }
+    msg
 }
 
 pub fn take_panic_message() -> String {
